@@ -230,8 +230,11 @@ def pruneNoops (bs : List WBlock) : List WBlock :=
   bs.map fun b => { b with instrs := b.instrs.filter fun i => !isNoop i }
 
 /-- `prune_empty`: an empty block is removed and its (single) target takes its place in every
-    predecessor; aborts like the code when an empty block has no target. -/
+    predecessor; aborts like the code when an empty block has no target. Two guards keep a block:
+    the entry block stays when its target has another predecessor (the entry must not gain one), and
+    a block stays when removing it would make the two targets of a branching block coincide. -/
 def pruneEmpty (bs : List WBlock) : Except String (List WBlock) :=
+  let entry : Nat := (bs.head?.map (·.name)).getD 0
   (bs.map (·.name)).foldlM (fun (cur : List WBlock) name =>
     match cur.find? (·.name == name) with
     | none => .ok cur
@@ -240,6 +243,11 @@ def pruneEmpty (bs : List WBlock) : Except String (List WBlock) :=
       else match b.jts with
         | [] => .error "IndexError:prune_empty"
         | it :: _ =>
+          if name == entry && cur.any (fun x => x.name != name && x.jts.contains it) then .ok cur
+          else if cur.any (fun x => match x.jts with
+              | [t, u] => t != u && ((t == name && u == it) || (t == it && u == name))
+              | _ => false) then .ok cur
+          else
           let rest := cur.filter (·.name != name)
           .ok (rest.map fun x =>
             match x.jts with
@@ -247,12 +255,49 @@ def pruneEmpty (bs : List WBlock) : Except String (List WBlock) :=
             | [t, u] => { x with jts := [if t == name then it else t, if u == name then it else u] }
             | _ => x)) bs
 
-/-- `AST2SCFGTransformer(code).transform_to_ASTCFG()` for a function body. -/
-def ast2cfg (body : List S) : Except String (List WBlock) := do
+/-- The block list handed to `prune_empty` (after `prune_unreachable` and `prune_noops`). -/
+def ast2cfgPre (body : List S) : Except String (List WBlock) := do
   let body := match body.getLast? with
     | some (.ret _) => body
     | _ => body ++ [.ret (.cst Cst.none)]
   let fe ← feList body {}
-  pruneEmpty (pruneNoops (pruneUnreachable fe.blocks))
+  pure (pruneNoops (pruneUnreachable fe.blocks))
+
+/-- `AST2SCFGTransformer(code).transform_to_ASTCFG()` for a function body. -/
+def ast2cfg (body : List S) : Except String (List WBlock) := do
+  pruneEmpty (← ast2cfgPre body)
+
+/-! Decidable hypotheses of the pruning theorems (`Scfg/Props/C08.lean`), evaluated by the driver
+on the pre-pruning block list of every generated program. -/
+
+/-- Untrusted rank: length of the chain of empty blocks starting at `n`. -/
+def chainLen (bs : List WBlock) : Nat → Nat → Nat
+  | 0, _ => 0
+  | f + 1, n => match bs.find? (·.name == n) with
+    | none => 0
+    | some b => if !b.instrs.isEmpty then 0 else match b.jts with
+      | [] => 1
+      | it :: _ => 1 + chainLen bs f it
+
+def rankOf (bs : List WBlock) (n : Nat) : Nat := chainLen bs (bs.length + 1) n
+
+def distinctTargetsB (bs : List WBlock) : Bool :=
+  bs.all fun x => match x.jts with
+    | [t, u] => t != u
+    | _ => true
+
+def closedBB (bs : List WBlock) : Bool := bs.all fun x => x.jts.all fun t => bs.any (·.name == t)
+
+def arity2B (bs : List WBlock) : Bool := bs.all fun x => x.jts.length ≤ 2
+
+def emptyRankedB (r : Nat → Nat) (bs : List WBlock) : Bool :=
+  bs.all fun x => !x.instrs.isEmpty || match x.jts with
+    | [] => true
+    | it :: _ => !(bs.any fun y => y.name == it && y.instrs.isEmpty) || r it < r x.name
+
+def emptiesHaveTargetB (bs : List WBlock) : Bool := bs.all fun x => !x.instrs.isEmpty || !x.jts.isEmpty
+
+def pruneHypOK (bs : List WBlock) : Bool :=
+  distinctTargetsB bs && closedBB bs && arity2B bs && emptyRankedB (rankOf bs) bs && emptiesHaveTargetB bs
 
 end Scfg.Model
